@@ -8,8 +8,8 @@ import (
 
 	ethcmn "github.com/ethereum/go-ethereum/common"
 	ethtypes "github.com/ethereum/go-ethereum/core/types"
-	ethcrypto "github.com/ethereum/go-ethereum/crypto"
 	ethvm "github.com/ethereum/go-ethereum/core/vm"
+	ethcrypto "github.com/ethereum/go-ethereum/crypto"
 )
 
 // IOp is one StateDB interface call (or a transaction / block boundary).
@@ -29,8 +29,9 @@ type IALEnt struct {
 }
 
 type IfaceCase struct {
-	Layer string `json:"layer"` // "iface"
-	Ops   []IOp  `json:"ops"`
+	Layer      string `json:"layer"`                  // "iface"
+	BlockPerTx bool   `json:"block_per_tx,omitempty"` // every EndTx also commits the block
+	Ops        []IOp  `json:"ops"`
 }
 
 var ifaceAddrs = []ethcmn.Address{
@@ -90,6 +91,7 @@ func RunIface(ic *IfaceCase, verbose bool) (out *IfaceOutcome) {
 	var snapsA, snapsR []int
 	touched := map[ethcmn.Address]bool{}
 	changed := 0
+	_ = changed
 
 	begin := func() {
 		if inTx {
@@ -125,7 +127,7 @@ func RunIface(ic *IfaceCase, verbose bool) (out *IfaceOutcome) {
 		}
 	}
 
-	endTx := func(step int) bool {
+	endTx := func(step int, commitFollows bool) bool {
 		if !inTx {
 			return true
 		}
@@ -159,25 +161,27 @@ func RunIface(ic *IfaceCase, verbose bool) (out *IfaceOutcome) {
 			return false
 		}
 		// naming history: what the reference destroyed in this tx
-		for a := range touched {
-			if rw.DB.HasSuicided(a) || (h.DestroyedThisTx[a]) {
-				h.DestroyedThisTx[a] = true
+		for a := range h.DestroyedThisTx {
+			if rw.DB.Exist(a) {
+				delete(h.DestroyedThisTx, a) // the Suicide was reverted
 			}
 		}
-		if d := compareState(aw, rw, u, h, fmt.Sprintf("Finalise of tx %d", txNo-1), out.Counts); d != nil {
-			if d.Context == "plain" {
-				d.Context = "Finalise"
-			}
-			setDiv(step, d)
-			if !d.Diag {
-				return false
+		if !commitFollows {
+			if d := compareState(aw, rw, u, h, fmt.Sprintf("Finalise of tx %d", txNo-1), out.Counts); d != nil {
+				if d.Context == "plain" {
+					d.Context = "Finalise"
+				}
+				setDiv(step, d)
+				if !d.Diag {
+					return false
+				}
 			}
 		}
 		h.endTx()
 		return true
 	}
 	endBlock := func(step int) bool {
-		if !endTx(step) {
+		if !endTx(step, true) {
 			return false
 		}
 		if d := safely("block-commit", func() { aw.EndBlock() }); d != nil {
@@ -204,8 +208,11 @@ func RunIface(ic *IfaceCase, verbose bool) (out *IfaceOutcome) {
 		k := ifaceSlot(op.K)
 		var retA, retR string
 		skip := false
+		if op.Op == "EndTx" && ic.BlockPerTx {
+			op.Op = "EndBlock"
+		}
 		if op.Op == "EndTx" {
-			if !endTx(i) {
+			if !endTx(i, false) {
 				return out
 			}
 			continue
@@ -378,6 +385,7 @@ func RunIface(ic *IfaceCase, verbose bool) (out *IfaceOutcome) {
 		out.Counts["cmp/return-values"]++
 		if stateChanging[op.Op] {
 			changed++
+			out.Nontrivial = true
 		}
 		if retA != retR {
 			fb := op.Op
@@ -408,6 +416,5 @@ func RunIface(ic *IfaceCase, verbose bool) (out *IfaceOutcome) {
 	if !endBlock(len(ic.Ops)) {
 		return out
 	}
-	out.Nontrivial = changed > 0
 	return out
 }
